@@ -35,6 +35,11 @@ def miri(ncases, extra=()):
             "extra": ["--max-cases", str(ncases), "--keep-stdout", "--utf8-only"] + list(extra)}
 
 
+def fuzz(target, thorough_s):
+    """Thorough only: coverage-guided libFuzzer run (cargo-fuzz, AddressSanitizer) on one target."""
+    return {"engine": "fuzz", "variant": "fuzz", "target": target, "tiers": ("thorough",), "budget_ms": {"quick": 0, "thorough": thorough_s * 1000}}
+
+
 def asan_pure(thorough_s):
     return pure(0, thorough_s, variant="asan", tiers=("thorough",))
 
@@ -130,13 +135,13 @@ PROPS = {
         "assumptions": PURE_ASSUME,
     },
     "C12": {
-        "stages": [pure(30, 420), real(6, 120), asan_pure(120), miri(400), real(0, 90, extra=["--wrap", "valgrind -q --error-exitcode=99 --trace-children=no"], tiers=("thorough",), n2="release")],
+        "stages": [pure(30, 420), real(6, 120), asan_pure(120), miri(400), real(0, 90, extra=["--wrap", "valgrind -q --error-exitcode=99 --trace-children=no"], tiers=("thorough",), n2="release"), fuzz("manifest", 240)],
         "rule": "(i) exhaustive: all sequences of <= 4 (quick) / 5 (thorough) tokens over 34 Ninja tokens (keywords, identifiers, spaces, newline, : | || |@ = $ '$ ' $-newline ${ } $x # tab NUL CR e-acute 0xff . .. / digit), each with and without a final newline, loaded from memory; (ii) mutations of valid generated manifests (truncate at a byte, delete/duplicate/swap ranges, raw bytes, dropped final newline, 10-800 character lines of multi-byte characters around an error, paths of 1-200 components, empty expansions); (iii) raw random bytes; (iv) depfile bytes; (v) deep/empty paths straight into the canonicaliser; (vi) include/subninja of itself, of a cycle, of a directory, of a missing file, of an empty expansion. Oracle: no panic, no abort (ub_checks/overflow/stack overflow kill the worker and are attributed by bisection), Ok or a non-empty diagnostic; parse errors must have the `parse error: ...`, `<file>:<line>: excerpt`, caret-line shape with the line in range; non-trivial = input that gets past the first statement keyword; evidence lists the distinct parser outcomes reached",
         "must_observe": ["exhaustive_inputs", "mutated_inputs", "include_cycle_inputs", "path_inputs", "depfile_inputs"],
         "assumptions": PURE_ASSUME + ["process-level clauses (exit status 1, `n2: error:` prefix) are checked by the black-box stage when present"],
     },
     "C13": {
-        "stages": [pure(12, 240), real(6, 120), asan_pure(120), miri(1500), sim(8, 150)],
+        "stages": [pure(12, 240), real(6, 120), asan_pure(120), miri(1500), sim(8, 150), fuzz("canon", 120)],
         "rule": "exhaustive over {a . / \\}^n for n <= 9 (quick) / 11 (thorough) and {a b . /}^n for n <= 8 / 10, then random paths of 1-60 components (UTF-8 names, .., ., empty, mixed separators) and re-spellings (inserted ./, x/../, doubled separators before the last component) which must canonicalise identically; checks: equals the independent component-list canonicaliser, idempotent, never longer, no ., empty or name/.. component left, .. only leading, same location; assert_unchecked/set_len preconditions are checked by the build profile; non-trivial = canon(p) != p; E1: histories in which commands report dependencies under several spellings (./x, a/../x, x) must be recorded under the canonical name and behave as one node (C09's workload); E2: command-line targets and depfile/showIncludes entries under other spellings through the real binary",
         "must_observe": ["exhaustive_inputs", "random_inputs", "respell_pairs"],
         "assumptions": PURE_ASSUME,
@@ -148,7 +153,7 @@ PROPS = {
         "assumptions": PURE_ASSUME,
     },
     "C15": {
-        "stages": [pure(15, 240), asan_pure(120), miri(600), sim(8, 150), real(8, 150)],
+        "stages": [pure(15, 240), asan_pure(120), miri(600), sim(8, 150), real(8, 150), fuzz("depfile", 120)],
         "rule": "exhaustive totality over all strings of length <= 9 (quick) / 10 (thorough) over {a, space, ':', backslash, newline}; structured depfiles of 1-6 `target: prerequisites` entries rendered with 0-3 spaces before the colon, spaces and/or backslash-newline continuations with indentation between prerequisites, blank lines, trailing spaces, optional final newline, Windows-style C:/x\\y names, entries without prerequisites, repeated targets; read through n2's real depfile reader from a file and compared with the listed prerequisites in order (repeated targets: grouped under the first occurrence); missing depfile = empty; malformed content must fail with a parse error naming the depfile; non-trivial = >= 2 entries or a continuation; end to end: E1 histories in which the reported list grows, shrinks to nothing or changes spelling (C09 workload: what is recorded must be exactly the last report), and E2 histories with real depfiles written by the commands (continuations, optional final newline, sometimes no depfile at all when nothing is to be reported)",
         "must_observe": ["exhaustive_inputs", "structured_inputs", "missing_depfile_checks", "malformed_rejected"],
         "assumptions": PURE_ASSUME,
